@@ -177,6 +177,11 @@ func draws(seed int64) (int64, int64) {
 	return p.Int63(), p.Int63()
 }
 
+// regression inputs that are always run first (the defects found in the code as it was: "::1" probed 0.0.0.0,
+// "::/96" walked all of IPv4, "2001:db8::/120" crashed the process, "::ffff:1.2.3.4" was read as 1.2.3.4)
+var corpus = []string{"::1", "::/96", "2001:db8::/120", "::ffff:1.2.3.4", "::ffff:1.2.3.0/120", "::/0", "::/64", "::/65", "::/127", "::ffff:0:0/96",
+	"fe80::1%eth0", "1.2.3.4", "0.0.0.0/0", "255.255.255.255/32", "10.1.2.3/8", "1.2.3.4/31"}
+
 func v6text(r *hlib.SplitMix64) string {
 	fixed := []string{"::1", "::", "::ffff:1.2.3.4", "::ffff:0102:0304", "0:0:0:0:0:ffff:1.2.3.4", "::FFFF:10.0.0.1",
 		"64:ff9b::1.2.3.4", "2001:db8::", "2001:db8::1", "fe80::1", "ff02::1", "::1.2.3.4", "::0.0.0.1", "1::", "0::0",
@@ -499,6 +504,19 @@ func main() {
 		return
 	}
 	r := hlib.NewRand(*seed)
+	for _, t := range corpus {
+		c := parseCase{Kind: "parse", Class: "corpus", S: hex.EncodeToString([]byte(t)), Text: fmt.Sprintf("%q", t), Seed: r.Int63()}
+		if strings.Contains(t, ":") {
+			c.Class = "ipv6"
+		}
+		c.Cidr, c.Addr = cidrOracle(t), addrOracle(t)
+		if n, err := sxip.ParseIPNet(t); err == nil && n != nil {
+			c.Impl = netJ{OK: true, IP: hex.EncodeToString(n.IP), Mask: hex.EncodeToString(n.Mask)}
+			o := runIPsChild(c.Impl.IP, c.Impl.Mask, true, c.Seed, 8)
+			c.Gen = &o
+		}
+		w.Put(c)
+	}
 	classes := []string{"ipv4-host", "ipv4-cidr", "ipv4-cidr", "ipv6", "ipv6", "ipv6-cidr", "ipv6-cidr", "garbage"}
 	for i := 0; i < *count; i++ {
 		w.Put(mkParse(r, classes[i%len(classes)]))
